@@ -24,7 +24,8 @@ pub struct TBlock {
     /// 3 the line is blanked: its text is replaced by an EMPTY line
     pub inside_kind: u8,
     pub inside_at: u8,
-    /// TAG flavour: 0 substitute a character of an attribute value, 1 insert a character, 2 append an attribute
+    /// TAG flavour: 0 substitute a character of an attribute value, 1 insert a character, 2 append an attribute,
+    /// 3 the last attribute's value, 4 delete a second `>` at the tag's end, 5 delete an attribute
     pub tag_kind: u8,
     /// ENDTAG flavour: 0 edit text after `</block>` in its comment, 1 whitespace inside `</ block >`
     pub end_kind: u8,
@@ -80,6 +81,9 @@ pub struct Extent {
     pub end_line: usize,
     pub selected: bool,
     pub content_modified: bool,
+    /// the only edit deletes a character right behind the tag's `>` that equals it: whether the tag itself is
+    /// "touched" is not decidable from the two texts, so selection is taken as observed (never a content change)
+    pub either: bool,
 }
 
 pub struct RenderedFile {
@@ -177,10 +181,15 @@ pub fn render_file(fi: usize, f: &TFile) -> RenderedFile {
         // start tag line(s): new vs old
         let tag_new = tag_text_long(&name, &b.rules, "1Q", true, b.multibyte, long_tag);
         let tag_old = if classes & TAG != 0 {
-            match b.tag_kind % 4 {
+            match b.tag_kind % 6 {
                 0 => tag_text_long(&name, &b.rules, "1R", true, b.multibyte, long_tag),
                 1 => tag_text_long(&name, &b.rules, "1", true, b.multibyte, long_tag),
                 2 => tag_text_long(&name, &b.rules, "1Q", false, b.multibyte, long_tag),
+                // a deletion at the very end of the tag: the old line had `>>` (a character diff cannot tell which
+                // `>` went; when the tag ends its line, the deletion sits at the line's tail)
+                4 => format!("{tag_new}>"),
+                // a deletion inside the tag: the old tag had one more attribute
+                5 => tag_new.replace(" data-w=\"n\"", " data-w=\"n\" data-z"),
                 // the value of the LAST attribute: the edited byte sits two bytes before the tag's `>`
                 _ => tag_new.replace("data-w=\"n\"", "data-w=\"m\""),
             }
@@ -279,7 +288,7 @@ pub fn render_file(fi: usize, f: &TFile) -> RenderedFile {
         }
         let end_line = new.len();
         let outer_name = format!("{name}-outer");
-        extents.push(Extent { name, tag_line, end_line, selected: classes & (INSIDE | TAG) != 0, content_modified: classes & INSIDE != 0 });
+        extents.push(Extent { name, tag_line, end_line, selected: classes & (INSIDE | TAG) != 0, content_modified: classes & INSIDE != 0, either: classes & (INSIDE | TAG) == TAG && b.tag_kind % 6 == 4 });
         if layout == 5 {
             // the outer block: its content (everything after the shared comment) holds the inner block's content
             // and end-tag line; the inner start tag is comment text, not content
@@ -287,7 +296,7 @@ pub fn render_file(fi: usize, f: &TFile) -> RenderedFile {
                 v.push(format!("{open}</block>{close}"));
             }
             let touched = classes & (INSIDE | ENDTAG) != 0;
-            extents.push(Extent { name: outer_name, tag_line: tag_line - 1, end_line: new.len(), selected: touched, content_modified: touched });
+            extents.push(Extent { name: outer_name, tag_line: tag_line - 1, end_line: new.len(), selected: touched, content_modified: touched, either: false });
         }
     }
     // a file that ends in a one-line block keeps its padding: a newline-only change of that line would touch tag and content at once
@@ -315,7 +324,7 @@ fn in_extents<'a>(d: &Diag, files: &'a [RenderedFile]) -> Option<&'a Extent> {
 }
 
 pub fn check(c: &TouchCase, probe: &Probe) -> Verdict {
-    let files: Vec<RenderedFile> = c.files.iter().enumerate().map(|(i, f)| render_file(i, f)).collect();
+    let mut files: Vec<RenderedFile> = c.files.iter().enumerate().map(|(i, f)| render_file(i, f)).collect();
     let sb = Sandbox::new();
     sb.write("echo.lua", super::c11::ECHO_LUA.as_bytes());
     sb.write("nil.lua", super::c11::NIL_LUA.as_bytes());
@@ -329,6 +338,18 @@ pub fn check(c: &TouchCase, probe: &Probe) -> Verdict {
     // the scripts are part of the old commit: write them before make_diff commits
     let mode = DiffMode { unified: c.unified % 11, kind: 0, algo: 0, renames: false };
     let diff = gitcase::make_diff(&sb, &pair, &mode);
+    // (a) selection
+    probe.child();
+    let lo = sb.bw(&BwRun::diff(&["list"], diff.as_bytes()));
+    let listing = parse_listing(&lo.stdout);
+    if let Ok(l) = &listing {
+        for f in files.iter_mut() {
+            for e in f.extents.iter_mut().filter(|e| e.either) {
+                e.selected = l.iter().any(|x| x.file == f.path && x.name == e.name);
+                probe.class("tag-edit:deletion-right-behind-the-tag(selection as observed)");
+            }
+        }
+    }
     let show = |what: &str, o: &Out| {
         let fs: Vec<String> = files.iter().map(|f| format!("--- {} (new) ---\n{}\n    blocks: {:?}", f.path, f.new, f.extents)).collect();
         format!("C02: {what}\n{}\n--- git diff -U{} ---\n{}\n--- observed ---\n{}", fs.join("\n"), c.unified % 11, crate::cli::trunc(&diff, 5000), o.brief())
@@ -339,13 +360,10 @@ pub fn check(c: &TouchCase, probe: &Probe) -> Verdict {
     probe.class_n("blocks:not-selected", all_ext.iter().filter(|e| !e.selected).count() as u64);
     probe.class_n("excluded-by-construction:deletion-after-shift(K1)", files.iter().map(|f| f.k1_excluded as u64).sum());
 
-    // (a) selection
-    probe.child();
-    let lo = sb.bw(&BwRun::diff(&["list"], diff.as_bytes()));
     if lo.timed_out || lo.panicked() || lo.code != Some(0) {
         return Verdict::Fail(show("`list` in diff mode failed", &lo));
     }
-    let listing = match parse_listing(&lo.stdout) {
+    let listing = match listing {
         Ok(l) => l,
         Err(e) => return Verdict::Fail(show(&e, &lo)),
     };
@@ -462,7 +480,7 @@ pub fn block_strategy() -> BoxedStrategy<TBlock> {
         prop_oneof![3 => Just(0u8), 3 => Just(INSIDE), 3 => Just(TAG), 2 => Just(ENDTAG), 2 => 0u8..8],
         0u8..5,
         any::<u8>(),
-        0u8..4,
+        0u8..6,
         0u8..2,
         prop_oneof![3 => Just(0u8), 1 => Just(1u8), 1 => Just(2u8), 1 => Just(3u8), 1 => Just(4u8), 1 => Just(5u8)],
         proptest::bool::weighted(0.25),
@@ -728,7 +746,7 @@ pub fn check_no_selection(c: &NoSelection, probe: &Probe) -> Verdict {
 
 pub fn run(run: &mut Run) {
     run.enumerate("no-selection", no_selection_cases(), Some("every non-empty combination of {deletion, binary change, mode change, pure rename} entries x {staged -U0, HEAD -U3}"), check_no_selection);
-    run.rule = "enumerated no-selection: diffs made only of deletions / binary changes / mode changes / pure renames (every combination) next to an untouched violating file: nothing is validated, `list` prints `{}`. random: 1..3 files (js, sh, rs, py, c) x 2..7 uniquely named non-nested blocks (own-line line comments, own-line block comments, everything on one line, a start tag spread over three lines with the edited attribute on the middle one, both tags inside one multi-line block comment, or nested in an untouched outer block whose start tag shares the comment) separated by 5 padding lines, each with 0..2 rules (keep-sorted, keep-unique, line-pattern, line-count, check-lua echo/nil; violating or not by chance) and a *set* of edit classes: inside (replace / insert / pure deletion / blanking of a content line / removal of trailing blanks only), tag-only (substitute or insert a character of an attribute value, append an attribute, change the last attribute's value), end-tag-only (text after </block>, whitespace in </ block >), plus edits of padding lines (outside) and untouched blocks; a 600-byte attribute in one tag of seven; multi-byte text before the tag and inside it (an attribute in front of the edited one) in 25%; real `git diff -U0..10`, in a third of the cases with a deleted file and an emptied file in front of the others; optional path arguments. Oracle: (a) `list` in diff mode = exactly the inside/tag-only blocks with is_content_modified exactly for inside; (b) diff-mode diagnostics = full-scan diagnostics restricted to the selected blocks' extents, exit status accordingly; (c) with path arguments = full scan of those files + diff-mode result of the others. enumerated sweep: every byte position of the start tag, the comment text before and after it, the content, the whole end-tag comment and the code after it in 3 one-line block templates (ASCII, multi-byte before the tag, indented) x {substitute, insert, delete}. Non-trivial (random) = a violating untouched block, a violating selected block and a tag-only block; (sweep) = a region boundary or a position where byte and character columns differ.".into();
+    run.rule = "enumerated no-selection: diffs made only of deletions / binary changes / mode changes / pure renames (every combination) next to an untouched violating file: nothing is validated, `list` prints `{}`. random: 1..3 files (js, sh, rs, py, c) x 2..7 uniquely named non-nested blocks (own-line line comments, own-line block comments, everything on one line, a start tag spread over three lines with the edited attribute on the middle one, both tags inside one multi-line block comment, or nested in an untouched outer block whose start tag shares the comment) separated by 5 padding lines, each with 0..2 rules (keep-sorted, keep-unique, line-pattern, line-count, check-lua echo/nil; violating or not by chance) and a *set* of edit classes: inside (replace / insert / pure deletion / blanking of a content line / removal of trailing blanks only), tag-only (substitute or insert a character of an attribute value, append an attribute, change the last attribute's value, delete an attribute, delete a second `>` right after the tag — at the line's tail when the tag ends its line), end-tag-only (text after </block>, whitespace in </ block >), plus edits of padding lines (outside) and untouched blocks; a 600-byte attribute in one tag of seven; multi-byte text before the tag and inside it (an attribute in front of the edited one) in 25%; real `git diff -U0..10`, in a third of the cases with a deleted file and an emptied file in front of the others; optional path arguments. Oracle: (a) `list` in diff mode = exactly the inside/tag-only blocks with is_content_modified exactly for inside; (b) diff-mode diagnostics = full-scan diagnostics restricted to the selected blocks' extents, exit status accordingly; (c) with path arguments = full scan of those files + diff-mode result of the others. enumerated sweep: every byte position of the start tag, the comment text before and after it, the content, the whole end-tag comment and the code after it in 3 one-line block templates (ASCII, multi-byte before the tag, indented) x {substitute, insert, delete}. Non-trivial (random) = a violating untouched block, a violating selected block and a tag-only block; (sweep) = a region boundary or a position where byte and character columns differ.".into();
     run.assumptions = vec![
         "pure line deletions are only generated where no earlier net line shift exists in the file (K1 excluded by construction, counted)".into(),
         "the sweep edits the OLD line only (the parsed NEW line is always the intact template); a deletion directly adjoining the start tag's `<` or `>` is unspecified and not judged".into(),
